@@ -28,30 +28,11 @@ def _mat(inp):
     return r, c, v
 
 
-def pred_not_bidiagonal(inp):
-    r, c, v = _mat(inp)
-    return any(v[i * c + j] != 0 for i in range(r) for j in range(c) if not (j == i or j == i + 1))
-
-
-def pred_reduced_column(inp):
-    """some column k <= n-3 whose entries below the sub-diagonal are all zero (reflector = identity)"""
-    r, c, v = _mat(inp)
-    for k in range(0, r - 2):
-        if all(v[i * c + k] == 0 for i in range(k + 2, r)) and v[(k + 1) * c + k] != 0:
-            return True
-    return False
-
-
 PREDS = {
-    "garbage": lambda inp: bool(inp.get("garbage")),
-    "size1": lambda inp: _mat(inp)[0] == 1,
-    "not_bidiagonal": pred_not_bidiagonal,
-    "cols_ge4": lambda inp: _mat(inp)[1] >= 4,
-    "n_ge6_nonsym": lambda inp: _mat(inp)[0] >= 6 and not (inp.get("kind") == "qr" and inp.get("sym")),
     "n_ge2": lambda inp: _mat(inp)[0] >= 2,
-    "n_ge3": lambda inp: _mat(inp)[0] >= 3,
-    "reduced_column": pred_reduced_column,
-    "sym_mode_or_tridiag": lambda inp: inp.get("kind") == "tridiag" or (inp.get("kind") == "qr" and inp.get("sym")),
+    # set by the harness on an svd call that did not return: the Householder bidiagonal form of
+    # the input has B[k,k] == 0 exactly with B[k-1,k] != 0 (computed by the library's own routine)
+    "svd_zero_diag_block_end": lambda inp: bool((inp.get("diag") or {}).get("zero_diag_block_end")),
 }
 
 
@@ -147,9 +128,9 @@ def run(ctx):
         return False
 
     # calls that did not return a value: classified without re-running (a hang costs a deadline each)
-    for t in rmeta.get("extra", {}).get("timeouts", []):
+    for t in (rmeta.get("extra") or {}).get("timeouts") or []:
         account(t["iter"]["kind"], "timeout", t["iter"], "timeout: did not return within the deadline", {"rcase": t})
-    for t in rmeta.get("extra", {}).get("nonvalues", []):
+    for t in (rmeta.get("extra") or {}).get("nonvalues") or []:
         if t["outcome"].startswith("panic"):
             account(t["iter"]["kind"], "panic", t["iter"], t["outcome"], {"rcase": t})
         # a returned error is a loud failure, not a wrong factorization (msqrt: singular iterate)
